@@ -606,6 +606,41 @@ Section P2.
     destruct (find_key (S k) key (rev rows)); reflexivity.
   Qed.
 
+  Lemma find_key_In k key (tbl : table) (r : row) : NoDup (map (firstn k) tbl) ->
+    (find_key k key tbl = Some r <-> In r tbl /\ firstn k r = key).
+  Proof.
+    induction tbl as [|x t IH]; cbn; intro N; [split; [discriminate|tauto]|].
+    inversion N as [|a b N1 N2]; subst. destruct (row_eqb O (firstn k x) key) eqn:E.
+    - apply (row_eqb_eq O OK) in E. split.
+      + intros [= <-]. auto.
+      + intros [[->|I] Ek]; [reflexivity|]. exfalso. apply N1. rewrite E, <- Ek. apply in_map, I.
+    - rewrite (IH N2). split.
+      + intros [I Ek]. auto.
+      + intros [[->|I] Ek]; [|auto]. exfalso. assert (X : row_eqb O (firstn k r) key = true) by (apply (row_eqb_eq O OK), Ek).
+        congruence.
+  Qed.
+
+  (* ROW ORDER IS IRRELEVANT: two files with the same rows (keys pairwise different) in any order load to the
+     same map *)
+  Theorem of_rows_order_irrelevant k (rows rows' : table) : keys_nodup O k rows = true -> Permutation rows rows' ->
+    forall key, find_key k key (of_rows O false k rows) = find_key k key (of_rows O false k rows').
+  Proof.
+    intros N P key.
+    assert (EQ : forall x y : row, key_eqb O k x y = true <-> firstn k x = firstn k y) by (intros; apply (key_eqb_eq O OK)).
+    assert (N1 : NoDup (map (firstn k) rows)) by (apply (nodup_by_NoDup (key_eqb O k) (firstn k) rows EQ), N).
+    assert (N2 : NoDup (map (firstn k) rows')) by (apply Permutation_NoDup with (map (firstn k) rows); [apply Permutation_map, P|exact N1]).
+    assert (N' : keys_nodup O k rows' = true) by (apply (nodup_by_NoDup (key_eqb O k) (firstn k) rows' EQ), N2).
+    rewrite !of_rows_nodup by assumption.
+    destruct (find_key k key rows) as [r|] eqn:E1.
+    - apply (find_key_In k key rows r N1) in E1. symmetry. apply (find_key_In k key rows' r N2).
+      split; [apply Permutation_in with rows; tauto|tauto].
+    - destruct (find_key k key rows') as [r|] eqn:E2; [|reflexivity].
+      apply (find_key_In k key rows' r N2) in E2.
+      assert (X : find_key k key rows = Some r).
+      { apply (find_key_In k key rows r N1). split; [apply Permutation_in with rows'; [apply Permutation_sym, P|tauto]|tauto]. }
+      congruence.
+  Qed.
+
   (* ---------------------------------------------------------------- post-processing is the identity on well-formed rows *)
   Lemma norm_group_ok (g : row) : group_ok O g = true -> norm_group O g = g.
   Proof.
@@ -924,3 +959,16 @@ Section P2.
     Qed.
   End Table.
 End P2.
+
+(* the specification-level parser does not depend on the layout either *)
+Lemma spec_read_layout O sch b e (items : list item) :
+  prefix_of version (HASH :: b) = true -> no_nl b = true -> forallb item_ok items = true ->
+  spec_read O sch (render_items (IComment b e :: items)) = spec_rows O (spec_schema_of sch) (items_rows items).
+Proof.
+  intros PV N H. unfold spec_read.
+  assert (OKI : forallb item_ok (IComment b e :: items) = true) by (cbn; rewrite N, H; reflexivity).
+  rewrite (table_of_rendering _ OKI). change (items_rows (IComment b e :: items)) with (items_rows items).
+  unfold version_first. rewrite render_items_cons. cbn [render_item].
+  change (HASH :: b ++ eol_txt e) with ((HASH :: b) ++ eol_txt e). rewrite <- app_assoc.
+  rewrite lines_app_eol by (cbn; exact N). rewrite PV. reflexivity.
+Qed.
